@@ -522,9 +522,8 @@ func CompareEvent(pfx, owner string, e *Ev, o *Obs, wantJSON *bool, collID uint3
 	if !mapEq(v.X, wantX) {
 		rep(uniq(owner, "C07"), pfx+".xattrs", fmt.Sprintf("%s: event xattrs %v, stored %v", ctx, v.X, wantX))
 	}
-	if v.XFlag != (len(wantX) > 0) && mapEq(v.X, wantX) {
-		rep([]string{owner}, pfx+".xattrflag", fmt.Sprintf("%s: xattr datatype flag %v with %d xattrs", ctx, v.XFlag, len(wantX)))
-	}
+	// The xattr datatype flag is only the framing of Value (already decoded above): a set flag with an empty
+	// xattr section decodes to the same body and xattrs, so it is not judged on its own.
 	if o.ExpErr == "" && e.Exp != o.Exp {
 		rep(uniq(owner), pfx+".expiry", fmt.Sprintf("%s: event expiry %d, stored %d", ctx, e.Exp, o.Exp))
 	}
